@@ -146,12 +146,12 @@ def run(R, ctx):
     # R05.4 -----------------------------------------------------------------------------------
     writers = sorted({p_ for p_, es in cg.ext.items() for (n, bb, t) in es if STORE(n, t)})
     for w in writers:
-        R.check('R05.4', f"spec-writer:{w}", w == 'logger_handle::WritersHandle::set_new_spec',
+        R.check('R05.4', f"spec-writer:{root_fn(w)}", only_called_from(cg, root_fn(w), {'logger_handle::WritersHandle::set_new_spec'}),
                 "the only function taking the specification write lock", f"unexpected writer of RwLock<LogSpecification>: {w}", where=f.bodies[w].loc())
     allowed = {handle[m].path for m in ('push_temp_spec', 'parse_and_push_temp_spec', 'pop_temp_spec')}
     for b2 in f.fn_bodies():
         if stack_mutations(ctx, b2):
-            R.check('R05.4', f"stack-writer:{b2.path}", b2.path in allowed, "expected writer of spec_stack",
+            R.check('R05.4', f"stack-writer:{root_fn(b2.path)}", only_called_from(cg, root_fn(b2.path), allowed), "expected writer of spec_stack (or a private helper of one)",
                     f"unexpected function mutating spec_stack: {b2.path}", where=b2.loc())
     for (b2, bb, s) in field_store_sites(f, 'spec_stack'):
         R.bad('R05.4', f"stack-store:{b2.path}", f"spec_stack is overwritten by assignment in {b2.path}", where=b2.loc(bb))
